@@ -24,6 +24,7 @@
 //!   result per connection: l_len l_ok l_end t_len t_ok t_end
 //!     (len = bytes received, ok = they are exactly the peer's byte stream so far, end: 1 clean EOF,
 //!      2 error/reset, 0 still open after the timeout)
+//! slow UDP:  1 3 entry n gap_ms   (see `slow_udp`)
 //! UDP case:  1 2 entry shared nclients (n size_1..size_n)*
 //!   entry 0 UDP remote, 1 SOCKS5 UDP association (shared 1: one association used by all clients;
 //!   variant 0/1 IPv4 / domain-name header, 2/3 the same with each client alternating between two targets,
@@ -254,6 +255,86 @@ async fn target_conn(mut s: TcpStream, scripts: Scripts, obs: ObsMap) {
     };
     obs.lock().unwrap().insert(tag, Obs { len: o.len + 4, ..o });
     // the socket is dropped (closed) here
+}
+
+/// what a slow UDP client needs of the world (so that it can run as a task beside the other cases)
+#[derive(Clone)]
+struct SlowCtx {
+    udp_port: u16,
+    socks_port: u16,
+    target_udp: u16,
+    udp_seen: Arc<Mutex<HashMap<u32, u64>>>,
+}
+
+/// UDP case kind 3: one client sending `n` datagrams `gap_ms` apart through a UDP remote (entry 0) or its own SOCKS5
+/// association (entry 1), each of which must be answered before the next is sent (3 s at most).  With gaps around or
+/// beyond the idle time after which both ends forget a UDP client (10 s), this exercises the refresh of active
+/// clients and the re-registration of pruned ones.  result: mine foreign from_ok header_ok target_got
+async fn slow_udp(cx: SlowCtx, entry: u64, n: u64, gap_ms: u64, tag: u32) -> Vec<u64> {
+    let Ok(sock) = UdpSocket::bind("127.0.0.1:0").await else { return vec![999_997] };
+    let mut control = None;
+    let dest: SocketAddr = if entry == 1 {
+        let Ok(mut s) = TcpStream::connect(("127.0.0.1", cx.socks_port)).await else { return vec![999_997] };
+        let mut b = [0u8; 2];
+        let mut rep = [0u8; 10];
+        if s.write_all(&[5, 1, 0]).await.is_err()
+            || s.read_exact(&mut b).await.is_err()
+            || s.write_all(&[5, 3, 0, 1, 0, 0, 0, 0, 0, 0]).await.is_err()
+            || s.read_exact(&mut rep).await.is_err()
+            || rep[1] != 0
+            || rep[3] != 1
+        {
+            return vec![999_997];
+        }
+        control = Some(s);
+        ([rep[4], rep[5], rep[6], rep[7]], u16::from_be_bytes([rep[8], rep[9]])).into()
+    } else {
+        ([127, 0, 0, 1], cx.udp_port).into()
+    };
+    let (mut mine, mut foreign, mut from_ok, mut hdr_ok) = (0u64, 0u64, 1u64, 1u64);
+    let mut buf = vec![0u8; 65536];
+    for seq in 0..n {
+        if seq > 0 {
+            tokio::time::sleep(Duration::from_millis(gap_ms)).await;
+        }
+        let mut p = vec![];
+        p.extend(tag.to_be_bytes());
+        p.extend((seq as u16).to_be_bytes());
+        p.extend(stream_bytes(tag, 100 + seq, 50));
+        let mut d = vec![];
+        if entry == 1 {
+            d.extend([0, 0, 0, 1, 127, 0, 0, 1]);
+            d.extend(cx.target_udp.to_be_bytes());
+        }
+        d.extend(&p);
+        let _ = sock.send_to(&d, dest).await;
+        let mut want = vec![b'R'];
+        want.extend(&p);
+        let deadline = tokio::time::Instant::now() + Duration::from_secs(3);
+        loop {
+            let Ok(Ok((m, from))) = tokio::time::timeout_at(deadline, sock.recv_from(&mut buf)).await else { break };
+            if from != dest {
+                from_ok = 0;
+            }
+            let mut body = &buf[..m];
+            if entry == 1 {
+                if body.len() < 10 || body[..4] != [0, 0, 0, 1] {
+                    hdr_ok = 0;
+                    foreign += 1;
+                    continue;
+                }
+                body = &body[10..];
+            }
+            if body == &want[..] {
+                mine += 1;
+                break;
+            }
+            foreign += 1;
+        }
+    }
+    drop(control);
+    let got = *cx.udp_seen.lock().unwrap().get(&tag).unwrap_or(&0);
+    vec![mine, foreign, from_ok, hdr_ok, got]
 }
 
 pub struct World {
@@ -777,6 +858,10 @@ impl World {
         rs.into_iter().flatten().collect()
     }
 
+    fn slow_ctx(&self) -> SlowCtx {
+        SlowCtx { udp_port: self.udp_port, socks_port: self.socks_port, target_udp: self.target_udp, udp_seen: self.udp_seen.clone() }
+    }
+
     pub fn run_case(&self, c: &[u64]) -> Vec<u64> {
         let base = self.counter.get();
         self.counter.set(base + 64);
@@ -790,6 +875,7 @@ impl World {
             return vec![999_996]; // no IPv6 loopback here: not run
         }
         match c.first() {
+            Some(3) if c.len() == 4 => self.rt.block_on(slow_udp(self.slow_ctx(), c[1], c[2], c[3], base)),
             Some(1) if c.len() >= 4 => self.rt.block_on(self.tcp_case(&c[1..], base)),
             Some(2) if c.len() >= 5 => self.rt.block_on(self.udp_case(&c[1..], base)),
             _ => vec![999_999],
@@ -823,6 +909,14 @@ pub fn generate(a: &Args, out: &mut Out) {
         let r = w.run_case(&c[1..]);
         out.emit(&c, &r);
     };
+    // slow UDP clients (idle times around the 10 s after which a UDP client is forgotten) run beside everything else
+    let mut slow = vec![];
+    if !a.mode.contains("random-only") {
+        for (k, (entry, n, gap)) in [(0u64, 8u64, 3200u64), (1, 8, 3200), (0, 2, 23_000), (1, 2, 23_000)].into_iter().enumerate() {
+            let cx = w.slow_ctx();
+            slow.push((vec![1u64, 3, entry, n, gap], w.rt.spawn(slow_udp(cx, entry, n, gap, 0x0300_0000 + k as u32))));
+        }
+    }
     // one case per (entry, shape) first
     if !a.mode.contains("random-only") {
         let mut evs = vec![(0u64, 0u64), (1, 0), (2, 0), (2, 1), (3, 0), (4, 0), (5, 0), (2, 2), (2, 3), (3, 2), (4, 2), (5, 2)];
@@ -896,5 +990,9 @@ pub fn generate(a: &Args, out: &mut Out) {
             }
             emit(out, c);
         }
+    }
+    for (c, h) in slow {
+        let r = w.rt.block_on(h).unwrap_or_else(|_| vec![999_998]);
+        out.emit(&c, &r);
     }
 }
